@@ -1,6 +1,6 @@
 (* C05 (receiving side): whatever part of the log a device holds when it is activated and in
    whatever order the rest arrives, it registers exactly the chain keys addressed to its member. *)
-From Coq Require Import List NArith Bool Permutation.
+From Coq Require Import List NArith Bool Permutation Lia.
 From Wesh Require Import Model.C05_ChainKeyAnn Model.C05_Receive Proofs.C05_ChainKeyAnn.
 Import ListNotations.
 Open Scope N_scope.
@@ -161,3 +161,44 @@ Proof.
   - right. apply ld_chain_key; [exact Hc|].
     apply in_app_or in Hm. destruct Hm as [Hm|Hm]; [left; apply announced_spec; exists m; exact Hm | right; exists m; exact Hm].
 Qed.
+
+(* ---------- the two instants of an activation ---------- *)
+Lemma skipn_incl {A} : forall (l : list A) i j, (i <= j)%nat -> incl (skipn j l) (skipn i l).
+Proof.
+  induction l as [|x l IH]; intros i j H; [destruct i, j; cbn; apply incl_refl|].
+  destruct j as [|j]; [replace i with 0%nat by lia; apply incl_refl|].
+  destruct i as [|i]; cbn [skipn].
+  - intros y Hy. right. apply (IH 0%nat j); [lia|exact Hy].
+  - apply IH. lia.
+Qed.
+
+Lemma in_firstn_or_skipn {A} (l : list A) n x : In x l -> In x (firstn n l) \/ In x (skipn n l).
+Proof. intros H. rewrite <- (firstn_skipn n l) in H. apply in_app_or in H. exact H. Qed.
+
+(* subscription first: every announcement addressed to the member, wherever it falls in the arrival
+   order relative to the two instants, is registered *)
+Lemma activation_window_complete me L i_sub i_snap s :
+  (i_sub <= i_snap)%nat -> In s (flat_map (addressed me) L) -> In s (registered_window me L i_sub i_snap).
+Proof.
+  intros Hle Hin. apply in_flat_map in Hin. destruct Hin as (e & He & Hs).
+  unfold registered_window, scan, live. apply in_or_app.
+  destruct (in_firstn_or_skipn L i_snap e He) as [H|H].
+  - left. apply in_flat_map. exists e. split; assumption.
+  - right. apply in_flat_map. exists e. split; [|exact Hs]. apply (skipn_incl L i_sub i_snap Hle). exact H.
+Qed.
+
+(* ... and nothing else is *)
+Lemma activation_window_sound me L i_sub i_snap s :
+  In s (registered_window me L i_sub i_snap) -> In s (flat_map (addressed me) L).
+Proof.
+  unfold registered_window, scan, live. intros H. apply in_app_or in H.
+  apply in_flat_map. destruct H as [H|H]; apply in_flat_map in H; destruct H as (e & He & Hs); exists e; split; try exact Hs.
+  - rewrite <- (firstn_skipn i_snap L). apply in_or_app. left. exact He.
+  - rewrite <- (firstn_skipn i_sub L). apply in_or_app. right. exact He.
+Qed.
+
+(* scan first, subscription afterwards: the announcement that arrives in between is lost *)
+Lemma scan_before_subscription_loses_a_key :
+  let L := [MemberDevice 1 10; ChainKeyFor 20 1; MemberDevice 2 20] in
+  holds_window 1 L 2 1 20 = false /\ In 20 (flat_map (addressed 1) L) /\ holds_window 1 L 1 2 20 = true.
+Proof. vm_compute. repeat split; try reflexivity. left. reflexivity. Qed.
